@@ -245,3 +245,65 @@ class Norm:
     def describe_atom(self, i, depth=0):
         k = self.atom_desc[i]
         return "a%d=%s" % (i, str(k)[:160])
+
+
+# ---- substitution and reduction modulo the curve equation (group-law obligations) -------------------
+
+def atom_id(N, term):
+    """id of the atom a term normalises to (the term must be a bare atom)"""
+    p = N.poly(term)
+    if len(p) == 1:
+        (m, c), = p.items()
+        if c == 1 and len(m) == 1 and m[0][1] == 1:
+            return m[0][0]
+    raise ValueError("not an atom: %r" % (term,))
+
+
+def subst_atoms(N, poly, mapping):
+    """replace atoms by polynomials: mapping {atom_id: poly}"""
+    res = {}
+    for m, c in poly.items():
+        term = N.const(c)
+        for a, e in m:
+            base = mapping.get(a)
+            if base is None:
+                base = {((a, 1),): 1}
+            for _ in range(e):
+                term = N.mul(term, base)
+        res = N.add(res, term)
+    return res
+
+
+def reduce_te_curve(N, poly, xid, yid, a_coeff, d_coeff):
+    """normal form modulo  a x^2 + y^2 - 1 - d x^2 y^2  (leading monomial x^2 y^2; a Groebner basis on its own,
+    and together with the same relation in disjoint variables by Buchberger's first criterion)"""
+    p = N.p
+    dinv = pow(d_coeff % p, -1, p)
+    changed = True
+    while changed:
+        changed = False
+        out = {}
+        for m, c in poly.items():
+            d = dict(m)
+            if d.get(xid, 0) >= 2 and d.get(yid, 0) >= 2:
+                changed = True
+                d[xid] -= 2
+                d[yid] -= 2
+                rest = tuple(sorted((k, v) for k, v in d.items() if v))
+                # x^2 y^2 = (a x^2 + y^2 - 1) / d
+                repl = {((xid, 2),): a_coeff % p * dinv % p, ((yid, 2),): dinv, (): (-dinv) % p}
+                for m2, c2 in repl.items():
+                    mm = Norm.mono_mul(rest, m2)
+                    v = (out.get(mm, 0) + c * c2) % p
+                    if v:
+                        out[mm] = v
+                    else:
+                        out.pop(mm, None)
+            else:
+                v = (out.get(m, 0) + c) % p
+                if v:
+                    out[m] = v
+                else:
+                    out.pop(m, None)
+        poly = out
+    return poly
